@@ -27,6 +27,35 @@ Theorem C13_short_fronts :
 Proof. exact @functional_diversity_short. Qed.
 Print Assumptions C13_short_fronts.
 
+(* ---- the crowding distance (the default metric), in exact arithmetic with IEEE rules for +inf, -inf and NaN (EQx):
+   the SAME Gallina term calc_crowding_distance that is run bit-for-bit against NumPy on binary64 ---- *)
+From Coq Require Import QArith.
+From PV Require Import Base.NumEQ Proofs.CdP.
+
+(* one value per point; every value is a non-negative rational or +inf: never NaN, never negative *)
+Theorem C13_cd_wellformed :
+  forall (F : list (list eq)) m, fin_matrix F m -> (0 < m)%nat -> length (hd [] F) = m ->
+    length (calc_crowding_distance (X := EQx) F) = length F /\ Forall good (calc_crowding_distance (X := EQx) F).
+Proof. exact cd_wellformed. Qed.
+Print Assumptions C13_cd_wellformed.
+
+(* for every non-constant objective j some holder i0 of its minimum and some holder i1 of its maximum get +inf *)
+Theorem C13_cd_extremes_infinite :
+  forall (F : list (list eq)) m j, fin_matrix F m -> (0 < m)%nat -> length (hd [] F) = m -> (j < m)%nat ->
+    (exists a b, In a (col (X := EQx) F j) /\ In b (col (X := EQx) F j) /\ eltb a b = true) ->
+    exists i0 i1, (i0 < length F)%nat /\ (i1 < length F)%nat /\
+      (forall i, (i < length F)%nat -> fle (nth i0 (col (X := EQx) F j) ENaN) (nth i (col (X := EQx) F j) ENaN) /\
+                                       fle (nth i (col (X := EQx) F j) ENaN) (nth i1 (col (X := EQx) F j) ENaN)) /\
+      nth i0 (calc_crowding_distance (X := EQx) F) ENaN = PInf /\ nth i1 (calc_crowding_distance (X := EQx) F) ENaN = PInf.
+Proof. exact cd_extremes_infinite. Qed.
+Print Assumptions C13_cd_extremes_infinite.
+
+(* non-vacuity: a 4-point front; the interior values are 1/2 and 3/4 *)
+Example C13_cd_nonvacuous :
+  calc_crowding_distance (X := EQx) [[Fin 0; Fin 4]; [Fin 1; Fin 3]; [Fin 2; Fin 2]; [Fin 4; Fin 0]]
+  = [PInf; Fin (256 # 512); Fin (384 # 512); PInf].
+Proof. vm_compute. reflexivity. Qed.
+
 (* ---- known finding compiled/pcd/OOB : memory safety of the compiled pcd kernel is refuted ---- *)
 Definition W_pcd : list (list float) := [[4; 0; 3]; [0; 3; 1]; [1; 1; 3]; [3; 1; 2]]%float.
 Theorem C13_pcd_memsafe_refuted :
